@@ -1302,6 +1302,116 @@ def oracle_intpos(case):
     return labels
 
 
+# ----------------------------------------------------------------------------- enumerated option combinations (class H)
+#
+# Every defect type touches the same state: the row order, the old_id column, the types / symbols, the property rows of the atom
+# moved or made.  The options that reach that state - site by index (either sign) or by position, Cartesian or box-relative,
+# default or explicit atol, direct or through point(), explicit new type, explicit old_id, keyword values - are enumerated in
+# every combination for one call, and the defect types with their site / scale / extras choices in every ORDER for two and three
+# successive calls, on a plain cubic system without old_id and on a triclinic one with origin, old_id and other properties.
+
+def _combo_systems():
+    fcc = _BASES['fcc']
+    rel_a = [[(p[0] + i) / 2, p[1], p[2]] for i in range(2) for p in fcc]
+    sys_a = {'cell': {'lx': 4.0, 'ly': 4.0, 'lz': 4.0, 'xy': 0.0, 'xz': 0.0, 'yz': 0.0, 'origin': [0.0, 0.0, 0.0], 'rot': None, 'lefthanded': False},
+             'pbc': [True, True, True], 'rel': rel_a, 'atype': [2, 2, 1, 2, 3, 2, 2, 2], 'symbols': ['Aa', 'Bb', 'Cc'],
+             'props': [['charge', [0.5, -1.25, 2.0, 0.125, -3.5, 1.0, 0.75, -0.25]],
+                       ['vel', [[0.5 * i, -0.25 * i, 1.0 + i] for i in range(8)]]],
+             'old_id': None, 'twins': [], 'sym': None, 'store': None, 'face': []}
+    bcc = _BASES['bcc']
+    rel_b = [[p[0], (p[1] + j) / 2, (p[2] + k) / 2] for j in range(2) for k in range(2) for p in bcc]
+    sys_b = {'cell': {'lx': 4.0, 'ly': 5.0, 'lz': 6.0, 'xy': 1.0, 'xz': -0.5, 'yz': 1.5, 'origin': [10.0, -20.0, 5.5], 'rot': None, 'lefthanded': False},
+             'pbc': [True, True, True], 'rel': rel_b, 'atype': [2, 1, 2, 2, 3, 2, 2, 1], 'symbols': ['Aa', 'Bb', 'Cc', 'Dd'],
+             'props': [['tag', [3, -5, 17, 0, 44, 8, -1, 21]],
+                       ['st', [[[0.5 * i, 1.0], [-0.25, 2.0 - i]] for i in range(8)]]],
+             'old_id': [31, 7, 22, 10, 28, 13, 25, 16], 'twins': [], 'sym': None, 'store': None, 'face': []}
+    sys_c = dict(sys_b, pbc=[True, False, True], sym={'m': 13, 'p': 4, 's': 3},
+                 store={'pos': 'float32', 'atype': 'uint8', 'f': 'float32', 'i': 'int16', 'oid': 'int16', 'layout': 'F', 'lim': True})
+    return [sys_a, sys_b, sys_c]
+
+
+_COMBO_KW = {0: [['charge', 1.5], ['vel', [0.5, -1.0, 2.0]]], 1: [['tag', 9], ['st', [[1.0, 0.5], [-0.5, 2.0]]]], 2: [['tag', 9], ['st', [[1.0, 0.5], [-0.5, 2.0]]]]}
+_COMBO_K = [4, 9, 2]            # position in the sequence -> generic atom number (k % 4: in-place edit of the result / caller-side mutation / none)
+
+
+def _combo_op(isys, t, sel, scale, via, atol, atype_given, oldid, kw, slot, neg=False):
+    return {'type': t, 'via': via, 'sel': 'pos' if t == 'i' else sel, 'k': _COMBO_K[slot], 'neg': neg, 'npint': False, 'scale': scale,
+            'image': [1, 0, -1] if sel == 'pos' else [0, 0, 0], 'off': [0.3, [1, -1, 1]], 'atol': atol, 'posform': 'array',
+            'irel': [0.3 + 0.1 * slot, 0.15, 0.6], 'inear': False, 'tshift': 1, 'atype_given': atype_given,
+            'db': [0.125, -0.0625, 0.03125], 'dbform': 'list', 'kw': _COMBO_KW[isys] if kw else [], 'kwlist': False,
+            'oldid_kw': (100000 + slot) if oldid else None, 'misuse': None}
+
+
+def _combo_templates():
+    """reduced templates for sequences: (type, site, scale, extras)"""
+    out = []
+    for t in ('v', 'i', 's', 'db'):
+        for sel in (('pos',) if t == 'i' else ('id', 'pos')):
+            for scale in (False, True):
+                for extras in ((False,) if t == 'v' else (False, True)):
+                    out.append((t, sel, scale, extras))
+    return out
+
+
+def combo_cases(tier):
+    systems = _combo_systems()
+    cases = []
+    # one call: the full product of the options
+    for isys in (0, 1):
+        n = 0
+        for t in ('v', 'i', 's', 'db'):
+            for sel, neg in ((('pos', False),) if t == 'i' else (('id', False), ('id', True), ('pos', False))):
+                for scale in (False, True):
+                    for atol in (None, 0.05):
+                        for via in ('direct', 'point'):
+                            for atype_given in ((False,) if t == 'v' else (False, True)):
+                                for oldid in ((False, True) if t in ('i', 'db') else (False,)):
+                                    for kw in ((False,) if t == 'v' else (False, True)):
+                                        op = _combo_op(isys, t, sel, scale, via, atol, atype_given, oldid, kw, 0, neg)
+                                        op['k'] = 4 + n % 4
+                                        n += 1
+                                        cases.append({'sys': systems[isys], 'ops': [op], 'units': None, 'hist': None, 'combo': 'single'})
+    tpl = _combo_templates()
+
+    def seq(isys, ts):
+        ops = []
+        for slot, (t, sel, scale, extras) in enumerate(ts):
+            ops.append(_combo_op(isys, t, sel, scale, 'point' if slot % 2 else 'direct', None, extras, extras, extras, slot, neg=bool(slot % 2)))
+        return {'sys': systems[isys], 'ops': ops, 'units': None, 'hist': None, 'combo': {2: 'pair', 3: 'triple'}[len(ts)]}
+
+    for isys in ((0, 1) if tier == 'quick' else (0, 1, 2)):
+        for a in tpl:
+            for b in tpl:
+                cases.append(seq(isys, (a, b)))
+    if tier == 'quick':
+        # every ordered triple of defect types, all by index / all by position, with and without the extras
+        for isys in (0, 1):
+            for sel in ('id', 'pos'):
+                for extras in (False, True):
+                    for a in ('v', 'i', 's', 'db'):
+                        for b in ('v', 'i', 's', 'db'):
+                            for c in ('v', 'i', 's', 'db'):
+                                cases.append(seq(isys, tuple((t, sel, bool(isys), extras and t != 'v') for t in (a, b, c))))
+    else:
+        for isys in (0, 1):
+            for a in tpl:
+                for b in tpl:
+                    for c in tpl:
+                        cases.append(seq(isys, (a, b, c)))
+    return cases
+
+
+def oracle_combos(case):
+    labels, nok, nt_site, skewed = _guarded(case)
+    labels.add('combo_' + case['combo'])
+    if nok == len(case['ops']):
+        labels.add('allok')
+        labels.add('allok_' + case['combo'])
+    if nok >= 2:
+        labels.add('composed')
+    return labels
+
+
 CLAUSES = [
     Clause('insert', oracle_insert, insert_cases, quick=15000, thorough=380000,
            min_share={'nt': 0.1, 'image': 0.15, 'scaled': 0.12, 'id_neg': 0.03, 'refuse_nosite': 0.1, 'cross_pos_to_id': 0.08,
@@ -1324,4 +1434,8 @@ CLAUSES = [
            min_share={'composed': 0.15, 'nt': 0.07, 'mixed_types': 0.2, 'units': 0.15, 'units_pos_default_atol': 0.14,
                       'units_datol_off_0.3': 0.04, 'hist_before': 0.05},
            desc='1-4 successive insertions; old_id composes to the first system; every intermediate input untouched'),
+    Clause('combos', oracle_combos, enumerate=combo_cases, nontrivial='allok',
+           desc='enumerated: every combination of the options of one call (type x site by +index / -index / position x scale x atol x '
+                'direct / point() x new type x old_id x keyword values), every ordered pair of (type, site, scale, extras) and every '
+                'ordered triple of defect types (thorough: of the templates), on a plain and on a triclinic system with old_id'),
 ]
